@@ -91,13 +91,14 @@ PROPS = {
     'C17': {
         'title': 'memo transparency',
         'rule': 'one case = one preprocessed text parsed by the raw parser at capacities unbounded, default, 4096, 256, 128 and (size permitting) 64..1; '
-                'non-trivial = at least one run evicted entries; distinct by hash of (text, mode)',
+                'non-trivial = at least one run evicted entries; distinct by hash of (text, mode); the first 3000 case slots are the fixed catalogue '
+                '(every vendored corpus program + the memo-stress family at fixed sizes, capacities >= 8), whose known capacity dependences are listed input by input',
         'evaluations_key': 'runs',
         'floors': {'quick': {'runs': 9000, 'runs_with_evictions': 5000, 'runs_at_default': 1500, 'runs_at_16': 600, 'runs_at_1': 50},
                    'thorough': {'runs': 200000, 'runs_with_evictions': 100000}},
         'technique': 'runtime monitor: differential execution of the real parser under memo capacities set through the storage hook; hook counters (evictions, guard-mismatched hits, version-stack events) classify a mismatch against the known causes',
         'level_text': 'The same text is parsed at up to twelve memo capacities through the hook-configurable table and every result is compared with the unbounded one; eviction counts in the evidence show the sweep really evicted.',
-        'level_note': 'With hooks on the table is created by the hook module (default 1024), so an edit of the literal in storage!() is not seen (default_capacity_source: hook). K3/K4 are attributed by cause (see known_findings.json), anything else is a violation.',
+        'level_note': 'With hooks on the table is created by the hook module (default 1024), so an edit of the literal in storage!() is not seen (default_capacity_source: hook). On randomly generated inputs K3/K4 are attributed by cause (see known_findings.json), anything else is a violation; on the fixed catalogue the known instances are listed input by input (CAT:<hash>:<capacity>) and any other capacity dependence is a violation whatever its cause.',
         'design_ref': '5 / C17',
         'coverage_extra': {'default_capacity_source': 'hook'},
     },
